@@ -224,12 +224,43 @@ theorem C04_witness_probe_left :
     outcome (run (cmdRename plA) (tA.take 2) (.fail 6 .EIO)) = .ok ∧
     fileAt (run (cmdRename plA) (tA.take 2) (.fail 6 .EIO)) pProbeFile = some (.file b!"test" 0o644) := by decide +kernel
 
+/-- the stale scenario of the former finding `stale_panic`: `b.txt` was cut down to one byte behind the plan's back -/
+def tAcut : Tree := [ ([b!"a.txt"], .file b!"foo" 0o644), ([b!"b.txt"], .file b!"f" 0o600) ] ++ meta0
+
+/-- BEFORE repo commit 29e3f64 (unchecked slices, `Edits.applyEditsOld`): offsets past the end of the file panic
+    (exit status 101; also C16) -/
+theorem stale_offsets_panicked_before_29e3f64 :
+    Edits.applyEditsOld b!"f" [{ before := b!"foo", after := b!"bar", start := 0, stop := 3 }] = .error .panic := by
+  decide
+
+/-- … and the code as it is reports the same stale plan as a content mismatch -/
+theorem stale_offsets_mismatch_now :
+    Edits.applyEdits b!"f" [{ before := b!"foo", after := b!"bar", start := 0, stop := 3 }] = .error .mismatch := by
+  decide
+
 set_option maxRecDepth 100000 in
-/-- finding (also C16): offsets past the end of the second file panic; `a.txt` stays rewritten -/
-theorem C04_witness_stale_panic :
-    outcome (run (cmdApply plA) ([ ([b!"a.txt"], .file b!"foo" 0o644), ([b!"b.txt"], .file b!"f" 0o600) ] ++ meta0) .none) = .panic ∧
-    fileAt (run (cmdApply plA) ([ ([b!"a.txt"], .file b!"foo" 0o644), ([b!"b.txt"], .file b!"f" 0o600) ] ++ meta0) .none)
-      [b!"a.txt"] = some (.file b!"bar" 0o644) := by decide +kernel
+/-- the whole command on that scenario: a reported failure, no panic (what remains is `content_not_rolled_back`:
+    `a.txt`, processed before the stale `b.txt`, stays rewritten) -/
+theorem stale_offsets_fail_cleanly_example :
+    outcome (run (cmdApply plA) tAcut .none) = .fail ∧
+    fileAt (run (cmdApply plA) tAcut .none) [b!"b.txt"] = some (.file b!"f" 0o600) ∧
+    fileAt (run (cmdApply plA) tAcut .none) [b!"a.txt"] = some (.file b!"bar" 0o644) := by decide +kernel
+
+/-- the edit loop as it is never panics, whatever the plan says (all contents, all edit lists) -/
+theorem edits_never_panic (c : Bytes) (es : List Edits.Edit) : Edits.applyEdits c es ≠ .error .panic :=
+  applyEdits_ne_panic c es
+
+/-- the two tree phases never panic: under every fault and crash point, for every plan and tree, the content phase
+    followed by the rename phase does not end in a panic (exit status 101) -/
+theorem core_never_panics (cfg : Cfg) (plan : Plan) (s s' : St) : core cfg plan s ≠ .err .panic s' := by
+  have h : NoPanic (core cfg plan) := by
+    unfold core
+    exact np_bind (np_contentLoop _ cfg plan.hunks _) (fun _ => np_renameLoop cfg _ _)
+  exact h s s'
+
+/-- the model's `applyEdits` is the checked variant exactly when the source checks its slices (flag read by
+    translate/execflags.py from apply_content_edits_with_content) -/
+theorem offsets_checked_flag : ExecFlags.offsetsChecked = true := by decide
 
 set_option maxRecDepth 100000 in
 theorem C04_full_false : ¬ C04_full := by
